@@ -151,9 +151,18 @@ func vpDocMember_Time(w *vpDocWriter, term string, v time.Time, variant int) {
 }
 
 func vpDocMember_Duration(w *vpDocWriter, term string, v time.Duration, variant int) {
-	// the three generated durations, written as xsd:duration by hand
+	// the generated durations, written as xsd:duration by hand (whole days also in their hour form:
+	// the same duration, another legal spelling)
 	s := "PT0S"
 	switch v {
+	case 72 * time.Hour:
+		s = []string{"P3D", "PT72H", "P3DT0S"}[variant%3]
+	case 24 * time.Hour:
+		s = []string{"P1D", "PT24H", "P1DT0H"}[variant%3]
+	case 240 * time.Hour:
+		s = "P10D"
+	case -48 * time.Hour:
+		s = []string{"-P2D", "-PT48H", "-P2D"}[variant%3]
 	case 90 * time.Second:
 		s = "PT1M30S"
 	case time.Hour:
